@@ -213,7 +213,10 @@ def stress(seed, nthreads, rounds):
         except Exception as ex:
             return "exc:" + exc_name(ex)
     maps0 = pristine_maps()
-    alone = [safe(fn) for (_, fn) in calls]
+    # the concurrent rounds run FIRST, in a process that has not made a single library call yet: races on the first
+    # use of lazily built shared structures (caches published before they are filled) only exist then.  The
+    # sequential reference results are computed afterwards.
+    alone = None
     old = sys.getswitchinterval()
     sys.setswitchinterval(1e-6)
     out = []
@@ -234,12 +237,16 @@ def stress(seed, nthreads, rounds):
                 t.join()
             for t in range(nthreads):
                 for k in order[t][:120]:
-                    out.append({"k": "job", "thread": t, "job": [calls[k][0]], "result": str(res[t][k]), "alone": str(alone[k]),
+                    out.append({"k": "job", "thread": t, "job": [calls[k][0]], "result": str(res[t][k]), "alone": k,
                                 "sched": "stress%d.%d" % (seed, r)})
             out.append({"k": "step", "n": r, "thread": -1, "at": "after_round", "maps": maps_digest(), "maps0": maps0,
                         "sched": "stress%d.%d" % (seed, r)})
     finally:
         sys.setswitchinterval(old)
+    alone = [safe(fn) for (_, fn) in calls]
+    for e in out:
+        if e["k"] == "job":
+            e["alone"] = str(alone[e["alone"]])
     return out
 
 
